@@ -23,7 +23,7 @@ SHAPES = G.SHAPES
 
 
 def _repo_srcs():
-    r = []
+    r = list(G.tu_paths())          # the generated shape translation units first (they take longest to compile)
     for pat in ("libs/options/src/options/*.cpp", "libs/options/src/options/detail/*.cpp", "libs/options/impl/src/options/impl/*.cpp"):
         r += sorted(os.path.relpath(f, paths.REPO) for f in glob.glob(os.path.join(paths.REPO, pat)))
     r += ["libs/core/src/exception.cpp", "libs/core/src/insert_extract_locale.cpp", "libs/core/src/from_std_string.cpp",
@@ -31,15 +31,19 @@ def _repo_srcs():
     return r
 
 
-HARNESS = {"src": "harness/c03.cpp", "repo_srcs": _repo_srcs(), "flags": [], "libs": []}
+HARNESS = {"src": "harness/c03.cpp", "repo_srcs": _repo_srcs(), "flags": ["-g1"], "libs": []}
 TIE = ("hand-written model (FcpptModel/Model/C03.lean) + differential correspondence against real typed fcppt::options parsers; "
-       "the C++ parsers and the Lean OP terms are generated from one shape list (tools/gen_c03_shapes.py)")
-RULE = ("ex sid n k <alphabet> <prefix>: digest over all argument vectors of length n over the shape's alphabet that start with the prefix, "
-        "each vector's line = result of parse()/parse_help() plus the result of the parser's own parse member (record, remaining "
-        "arguments, missing-vs-other). Exhaustive for every length <= 4 (quick) / <= 6 (thorough) for every shape; longer vectors "
-        "sampled. An op is non-trivial unless it is a constructor-only line; distinct = distinct op lines (digest lines weigh k^(n-|prefix|)).")
+       "the C++ parsers (eight generated translation units) and the Lean OP terms are generated from one shape list (tools/gen_c03_shapes.py)")
+RULE = ("ex sid n k <alphabet> <prefix>: digest over all argument vectors of length n over the shape's alphabet that start with the prefix; "
+        "perm / weave: digest over all orders of a vector / all merges of two vectors. Each vector's line = result of parse()/parse_help() "
+        "(record, or the text of the options::error through its operator<<, or the help text) plus the result of the parser's own parse "
+        "member (record, remaining arguments, missing-vs-other with the state and text the error carries), optionally under an explicit "
+        "parse_context (sid@names). info: flag_names / option_names / usage / name accessors of every constructed object. Exhaustive for "
+        "every length <= 4 (quick) / <= 6 (thorough) over the core alphabet for every shape, shorter over the extended, near-miss, numeric, "
+        "white-space alphabets and the explicit contexts; longer vectors structured (permutations, woven tokens) and sampled. "
+        "distinct = distinct op lines (digest lines weigh the number of vectors they cover).")
 ASSUMPTIONS = [
-    "argument tokens contain no white space (operator>> of std::string reads the whole token)",
+    "operator>> of std::string / int / unsigned: skips leading classic-locale white space, reads one word (validated by the exhaustive-space batches)",
     "num_get for int/unsigned in the classic locale: [+-]?[0-9]+, whole token, range-checked; a negative unsigned wraps modulo 2^32 (libstdc++)",
     "std::find / vector::erase / std::set membership behave as their standard specifications (modelled as list split and list membership)",
     "records are compared by label: the order in which fcppt lists the elements of a product record is not observed",
@@ -60,7 +64,7 @@ _SEEN_HANG = {"lines": 0, "diverge": 0}
 def shape_of(op):
     t = op.split()
     try:
-        return SHAPES[int(t[1])]
+        return SHAPES[int(t[1].split("@")[0])]
     except (IndexError, ValueError):
         return None
 
@@ -103,16 +107,58 @@ def ex_ops(sid, n, alpha, per_op=12000):
     return [(head + " " + " ".join(p)).rstrip() for p in prefixes]
 
 
+def _fact(n):
+    r = 1
+    for i in range(2, n + 1):
+        r *= i
+    return r
+
+
+def _binom(n, k):
+    return _fact(n) // (_fact(k) * _fact(n - k))
+
+
 def weight(op):
     t = op.split()
     if t[0] == "ex":
         n, k = int(t[2]), int(t[3])
         return k ** (n - (len(t) - 4 - k))
+    if t[0] == "perm":
+        return _fact(len(t) - 2)
+    if t[0] == "weave":
+        e = int(t[2])
+        return _binom(len(t) - 3, e)
     return 1
+
+
+def _perms(toks):
+    if not toks:
+        return [[]]
+    r = []
+    for i in range(len(toks)):
+        for q in _perms(toks[:i] + toks[i + 1:]):
+            r.append([toks[i]] + q)
+    return r
+
+
+def _weaves(e, b):
+    if not e and not b:
+        return [[]]
+    r = []
+    if e:
+        r += [[e[0]] + w for w in _weaves(e[1:], b)]
+    if b:
+        r += [[b[0]] + w for w in _weaves(e, b[1:])]
+    return r
 
 
 def refine(op):
     t = op.split()
+    if t[0] == "perm":
+        return [("run " + t[1] + " " + " ".join(v)).rstrip() for v in _perms(t[2:])]
+    if t[0] == "weave":
+        e = int(t[2])
+        return [("run " + t[1] + " " + " ".join(v)).rstrip() for v in _weaves(t[3:3 + e], t[3 + e:])]
     if t[0] != "ex":
         return None
     n, k = int(t[2]), int(t[3])
@@ -188,6 +234,128 @@ def rand_vector(r, s, ext, lo, hi):
     return v[:hi]
 
 
+
+# ------------------------------------------------------------------ structured inputs
+
+_VALS = {"int": ["5", "12"], "uns": ["7", "3"], "str": ["foo", "bar"], "enm": ["red", "blue"]}
+
+
+def valid_vector(p, alt, cnt=None):
+    """a vector the parser is meant to accept; `alt` picks the variant (short names, right alternative of a sum,
+    which sub-command, how many iterations of a many, optional absent)"""
+    if cnt is None:
+        cnt = [0]
+    p = G.norm(p)
+    k = p[0]
+
+    def val(ty):
+        cnt[0] += 1
+        return _VALS[ty][(cnt[0] + alt) % 2]
+
+    def name(sh, lg):
+        return "-" + sh if (alt % 2 == 1 and sh is not None) else "--" + lg
+
+    if k == "arg":
+        return [val(p[2])]
+    if k in ("flag", "switch"):
+        return [] if alt == 2 else [name(p[2], p[3])]
+    if k == "uswitch":
+        return [name(p[2], p[3])]
+    if k == "opt":
+        if alt == 2 and p[5] is not None:
+            return []
+        return [name(p[2], p[3]), val(p[4])]
+    if k == "unit":
+        return []
+    if k == "optional":
+        return [] if alt == 2 else valid_vector(p[1], alt, cnt)
+    if k == "many":
+        return sum((valid_vector(p[1], alt, cnt) for _ in range(2 if alt == 0 else 1)), [])
+    if k == "prod":
+        return valid_vector(p[1], alt, cnt) + valid_vector(p[2], alt, cnt)
+    if k == "sum":
+        return valid_vector(p[3] if alt == 1 else p[2], alt, cnt)
+    if k == "commands":
+        n, _, q, _ = p[2][alt % len(p[2])]
+        return valid_vector(p[1], alt, cnt) + [n] + valid_vector(q, alt, cnt)
+    raise ValueError(k)
+
+
+def base_vectors(s, maxlen):
+    r = []
+    for alt in (0, 1, 2):
+        v = valid_vector(s["p"], alt)[:maxlen]
+        if v not in r:
+            r.append(v)
+    return r
+
+
+def option_names(s):
+    r = []
+    for l in G.leaves(s["p"]):
+        if l[0] == "opt":
+            r.append("--" + l[3])
+            if l[2] is not None:
+                r.append("-" + l[2])
+    return r
+
+
+def woven(s, quick):
+    """token groups woven into the base vectors at every position: every own name once and twice (repeated flags and
+    options), option names with a value / a flag-like value / another own name as value, foreign tokens, pairs of own names"""
+    own = G.own_tokens(s)
+    es = []
+    for t in own:
+        es += [[t], [t, t]]
+    for o in option_names(s):
+        es += [[o, "5"], [o, "-3"], [o, own[0]], [o, o]]
+    es += [[x] for x in ("5", "foo", "-", "--", "--zz", "-3", "~")]
+    pairs = [[a, b] for a in own for b in own if a != b]
+    es += pairs[:(8 if quick else 40)]
+    r = []
+    for e in es:
+        if e not in r:
+            r.append(e)
+    return r
+
+
+def near_alphabet(s, cap):
+    """own names and their near misses (one character more, one character less): every comparison with a name has a
+    token just beside it"""
+    own = G.own_tokens(s)[:cap]
+    r = list(own)
+    for t in own:
+        for m in (t + "x", t[:-1]):
+            if m and m not in r and m not in ("-", "--"):
+                r.append(m)
+    for t in ("5", "foo"):
+        if t not in r:
+            r.append(t)
+    return r
+
+
+def contexts(s):
+    """explicit parse_contexts for the parser's own parse member: none at all, foreign names, the own option names in the
+    other dash form, the own flag names as if they were options, everything"""
+    own = [t for t in G.own_tokens(s) if t.startswith("-")]
+    opts = option_names(s)
+    flip = []
+    for t in opts:
+        flip.append("-" + t[2:] if t.startswith("--") else "--" + t[1:])
+    flags = [t for t in own if t not in opts]
+    cs = ["", "--zz,-q,-3"]
+    for c in (flip, flags, own + ["--zz"]):
+        if c:
+            x = ",".join(c)
+            if x not in cs:
+                cs.append(x)
+    return cs
+
+
+def has_positional(s):
+    return any(l[0] == "arg" for l in G.leaves(s["p"])) or bool(G.command_names(s["p"]))
+
+
 HANG_LINES = ["hang 62", "hang 63", "hang 64", "hang 65 foo", "hang 62 --f --f", "hang 63 --o 5"]
 HANG_SHAPES_TERMINATING = ["run 63 --o", "run 63 --o x", "run 63 5 --o", "run 64 foo", "run 64 5 foo", "run 65", "run 65 foo bar", "run 65 -x"]
 
@@ -229,6 +397,70 @@ def batches(rng, tier):
         for _ in range(per):
             ops.append(f"run {s['id']} " + " ".join(rand_vector(r, s, ext, 7, 16)))
     yield Batch("random-long", ops, note="seeded vectors of length 7..16, option names mostly followed by a value")
+    # 3b. the static interface of every constructed object
+    yield Batch("info", [f"info {s['id']}" for s in SHAPES if s["kind"] != "hang"], exhaustive=True,
+                note="flag_names() / option_names() of every parser object of every shape in construction order, names of the sub_commands")
+    # 3b'. the comparison operators of option_name on all ordered pairs; the public is_option
+    names = ["--a", "-a", "--b", "-b", "--ab", "-ab", "--", "-", "--A", "-aa"]
+    yield Batch("option-name-order", ["oncmp " + " ".join(names), "oncmp", "oncmp --x", "oncmp -x --x -x"], exhaustive=True,
+                note="operator== and operator< of option_name on all ordered pairs of 10 names (same text short/long, prefixes, empty name, case)")
+    yield Batch("is-option", ["isopt a -a --a - -- ~ 5 -5 +5 a-b -~ =-"], exhaustive=True, note="fcppt::options::is_option")
+    # 3b''. numeric conversion at the limits of the value types
+    nums = ["0", "-0", "+0", "-1", "2147483647", "2147483648", "-2147483648", "-2147483649", "4294967295", "4294967296",
+            "-4294967295", "-4294967296", "00000000005", "1e3", "0x10", "5.", "+", "+-5", "18446744073709551616"]
+    for n in (1, 2, 3):
+        ops = []
+        for s in SHAPES:
+            if s["kind"] != "ok" or not (set(G.value_types(s)) & {"int", "uns"}):
+                continue
+            al = option_names(s)[:3] + (nums if n < 3 else nums[:8])
+            ops += ex_ops(s["id"], n, al)
+        yield Batch(f"exhaustive-numeric-len{n}", ops, exhaustive=True, note=f"all vectors of length {n} over the option names and numbers at and beyond the limits of int / unsigned, signs, leading zeros, non-decimal spellings")
+    # 3b3. white space inside tokens (operator>> skips leading blanks and stops at the next one)
+    spaces = ["\\sx", "x\\s", "a\\sb", "\\s", "\\s5", "5\\s", "\\t5", "5\\t\\s", "\\s-x", "\\n", "red\\s", "\\sred", "\\s\\s7", "5", "ä", "-ä", "--ä"]
+    for n in range(1, (3 if thorough else 2) + 1):
+        ops = []
+        for s in SHAPES:
+            if s["kind"] != "ok" or not G.value_types(s):
+                continue
+            ops += ex_ops(s["id"], n, G.own_tokens(s)[:4] + spaces)
+        yield Batch(f"exhaustive-space-len{n}", ops, exhaustive=True, note=f"all vectors of length {n} over own names and tokens with blanks, tabs, line breaks in front of, inside and behind a value")
+    # 3c. near misses of every name
+    for n in range(1, (4 if thorough else 3) + 1):
+        ops = []
+        for s in SHAPES:
+            if s["kind"] != "ok":
+                continue
+            na = near_alphabet(s, 12 if n <= 2 else (6 if thorough else 4))
+            ops += ex_ops(s["id"], n, na)
+        yield Batch(f"exhaustive-near-len{n}", ops, exhaustive=True, note=f"all vectors of length {n} over own names and their near misses (name + 'x', name without its last character)")
+    # 3d. explicit parse contexts for the parser's own parse member
+    for n in range(1, (4 if thorough else 3) + 1):
+        ops = []
+        for s in SHAPES:
+            if s["kind"] != "ok" or not has_positional(s):
+                continue
+            core, _ = alphabets(s)
+            for c in contexts(s):
+                ops += ex_ops(f"{s['id']}@{c}", n, core)
+        yield Batch(f"exhaustive-context-len{n}", ops, exhaustive=True, note=f"Parser::parse with explicit parse_contexts (empty, foreign, own option names in the other dash form, own flag names as options), all vectors of length {n} over the core alphabet")
+    # 3e. every order of an accepted vector, every position for additional / repeated tokens
+    maxperm = 7 if thorough else 6
+    pops, wops = [], []
+    for s in SHAPES:
+        if s["kind"] != "ok":
+            continue
+        bases = base_vectors(s, 8)
+        h = G.help_of(s)
+        if h:
+            bases.append(["--" + h[1]] + bases[0][:3])
+        for b in bases:
+            if len(b) >= 2:
+                pops.append(f"perm {s['id']} " + " ".join(b[:maxperm]))
+            for e in woven(s, not thorough):
+                wops.append(f"weave {s['id']} {len(e)} " + " ".join(e + b))
+    yield Batch("permutations", pops, exhaustive=True, note="every order of the tokens of vectors the shape is meant to accept (same multiset, different order)")
+    yield Batch("weave", wops, exhaustive=True, note="own names once and twice, option/value pairs, foreign tokens and pairs of own names inserted at every position (and every pair of positions) of accepted vectors")
     # 4. the known finding, under a 2 s watchdog per line; and inputs on which the same shapes do terminate
     yield Batch("hang-shapes-terminating", HANG_SHAPES_TERMINATING, note="many-of-nonconsuming shapes on inputs where an other_error ends the loop")
     r = rng.fork("hang")
@@ -238,19 +470,26 @@ def batches(rng, tier):
 
 MANIFEST = {
     "level_text": ("Machine-checked proof (Lean 4) over an executable model that mirrors fcppt::options parser by parser (argument, flag/switch, option, "
-                   "unit, unit_switch, optional, many, product, sum, commands, parse_to_empty, parse_help, constructors, next_arg/use_flag/use_option): "
+                   "unit, unit_switch, optional, many, product, sum, commands, parse_to_empty, parse_help, constructors, next_arg/use_flag/use_option, "
+                   "usage(), every error / exception text, flag_names()/option_names() as sets, extract_from_string incl. white space): "
                    "for every parser, argument vector, context and fuel a successful parse accounts for every argument index exactly once "
-                   "(remaining state is a sublist, remaining ++ logged indices are a permutation of the input; parse_accounts_all, "
-                   "parse_each_index_exactly_once), next_arg returns exactly the first token that is neither a flag nor the value of an option "
-                   "of the context (next_arg_spec, option_value_never_positional, flags_never_positional), the constructors accept exactly the "
-                   "well-formed definitions (construct_ok_iff_wellformed), optional/many/sum are transactional, and every parser without a many "
-                   "around a non-consuming parser terminates (many_terminates). 'Same record as the reference' is the differential correspondence: "
-                   "66 generated typed parser shapes (int, unsigned, std::string, enum), all argument vectors up to length 6 over each shape's "
-                   "alphabet (thorough; 4 in quick) plus longer seeded vectors, observing parse()/parse_help() and the parser's own parse member."),
+                   "(parse_accounts_all, parse_each_index_exactly_once; parse_ignores_indices: the indices are bookkeeping only), next_arg "
+                   "returns exactly the first token that is neither a flag nor the value of an option of the context (next_arg_spec, "
+                   "option_value_never_positional), use_flag / use_option take exactly the first occurrence (and the element after it), "
+                   "commands gives every sub-command its own names as context (commands_unfold), the constructors accept exactly the "
+                   "well-formed definitions (construct_ok_iff_wellformed), optional/many/sum are transactional, parse_help answers with the "
+                   "wrapped parser's usage exactly when the vector is the help switch alone (help_only_alone_any, help_text_is_usage), the "
+                   "record has exactly the labels of the parser's result type (parse_result_labels), every parser without a many around a "
+                   "non-consuming parser terminates (many_terminates) and more fuel never changes a result (parse_fuel_monotone). "
+                   "'Same record as the reference' is the differential correspondence: 126 generated typed parser shapes (int, unsigned, "
+                   "std::string, enum; parsers by value, by reference, shared, copied, type-erased), all argument vectors up to length 6 over "
+                   "each shape's alphabet (thorough; 4 in quick), near misses of every name, numeric limits, white space, explicit contexts, "
+                   "all permutations and woven repetitions of accepted vectors, the static interface of every constructed object; every "
+                   "text the library builds (usage, help, error, exception) is compared character by character."),
     "level_note": ("Trusted: Lean kernel + propext/Classical.choice/Quot.sound; fidelity of the hand-written model outside the exercised inputs; "
-                   "harness, shape generator and digest protocol; libstdc++ num_get modelled as [+-]?[0-9]+ with range check. fuel monotonicity is not proved "
-                   "(all theorems hold for every fuel). Open known finding: many(<parser that succeeds without consuming>) does not "
-                   "terminate (model: diverge for every fuel, harness: TIMEOUT). No sorry/axiom/native_decide."),
+                   "harness, shape generator and digest protocol; libstdc++ num_get / operator>> modelled as [ws]*[+-]?[0-9]+ with range check. "
+                   "Open known finding: many(<parser that succeeds without consuming>) does not terminate (model: diverge for every fuel, "
+                   "harness: TIMEOUT). No sorry/axiom/native_decide."),
     "technique": "Lean 4 proof over hand-written executable model + exhaustive differential correspondence (ASan/UBSan harness)",
     "design_ref": "DESIGN.md §5 C03, Appendix A.2",
 }
